@@ -12,7 +12,7 @@ from hypothesis import strategies as st
 from .. import gen
 from ..common import Crash, graph_from_json, guarded, inconclusive, invalid_config, ok, solver_options, violation
 from ..models import CYC_CLASSES, MIN_CLASSES, ROUTE_KEY, materialize_kwargs
-from . import c15
+from . import c15, c16
 
 ID = "C13"
 LEVEL = "fault_enumeration"
@@ -26,9 +26,10 @@ LEVEL_TEXT = (
 LEVEL_NOTE = "The solver giving up is simulated by overriding the reported status / did_timeout after a real solve (monkeypatch from the harness, no source hook); real SIGALRM expiry and the Gurobi back end are out of reach."
 RULE = (
     "case = one model input (path/walk k-models, MinFlowDecomp, MinFlowDecompCycles, MinPathCover, MinPathCoverCycles with lower-bound / "
-    "greedy / guessed-weights options; MinGenSet; NumPathsOptimization in first-feasible and delta modes); all (position, kind) pairs are "
+    "greedy / guessed-weights options; MinGenSet; NumPathsOptimization in first-feasible and delta modes; MinErrorFlow with and without its "
+    "second few-values stage); all (position, kind) pairs are "
     "executed inside the case. evaluations counts cases, 'fault_runs' in the label histogram counts injected runs. "
-    "non-trivial = the fault-free run makes >= 2 solver invocations and some fault hits an iteration whose k is below the optimum; distinct = case hash."
+    "non-trivial = the fault-free run makes >= 2 solver invocations and some fault hits an iteration whose k is below the optimum (MinErrorFlow: the second stage exists); distinct = case hash."
 )
 ASSUMPTIONS = ["inputs are small enough that the fault-free run is solved to optimality within the time limit"]
 BUDGET = {"quick": {"examples": 1400, "deadline_s": 90}, "thorough": {"examples": 6000, "deadline_s": 900}}
@@ -40,7 +41,14 @@ MINS = ["MinFlowDecomp", "MinFlowDecompCycles", "MinPathCover", "MinPathCoverCyc
 @st.composite
 def strategy_(draw, tier):
     big = tier == "thorough"
-    which = draw(st.sampled_from(["min", "min", "min", "k", "genset", "npo", "min"]))
+    which = draw(st.sampled_from(["min", "min", "min", "k", "genset", "npo", "min", "mef"]))
+    if which == "mef":
+        # MinErrorFlow: one solver run, or two with few_flow_values_epsilon (the second minimises the number of values)
+        c = draw(c16.strategy_(tier))
+        c["kw"].pop("sparsity_lambda", None)
+        if draw(st.sampled_from([True, True, False])):
+            c["kw"]["few_flow_values_epsilon"] = draw(st.sampled_from([0.5, 0.25, 1]))
+        return {"cls": "MinErrorFlow", "model": c}
     if which == "genset":
         for _ in range(5):
             c = draw(c15.strategy_(tier))
@@ -150,6 +158,8 @@ def _construct(case, tier):
     kw = materialize_kwargs(mc, tier)
     G = graph_from_json(mc["graph"])
     model = getattr(fp, mc["cls"])(G, **kw)
+    if mc["cls"] == "MinErrorFlow":
+        return model, (lambda m: round(float(m.get_solution()["error"]), 6))
     if mc["cls"] in MIN_CLASSES:
         key = ROUTE_KEY[mc["cls"]]
         return model, (lambda m: len(m.get_solution()[key]))
@@ -181,7 +191,7 @@ def _is_solved(model):
 def run_case(case, tier="quick"):
     try:
         cls = case["cls"]
-        if cls not in K_CLASSES + MINS + ["MinGenSet", "NumPathsOptimization"]:
+        if cls not in K_CLASSES + MINS + ["MinGenSet", "NumPathsOptimization", "MinErrorFlow"]:
             return invalid_config("class")
     except Exception as e:
         return invalid_config(f"malformed case {e!r}")
@@ -253,7 +263,7 @@ def run_case(case, tier="quick"):
                     labels.add("second_solve")
                 continue
             # solved under a fault
-            if cls in K_CLASSES:
+            if cls in K_CLASSES + ["MinErrorFlow"]:
                 if calls2 >= 1:
                     return violation("k_model_solved_despite_fault", f"{cls}: is_solved() is True after {where}", labels, facts=dict(facts, pos=pos, kind=kind))
                 continue
@@ -276,7 +286,7 @@ def run_case(case, tier="quick"):
                     facts=dict(facts, pos=pos, kind=kind),
                 )
     labels.add(f"fault_runs:{min(fault_runs // 3 * 3, 15)}")
-    nontrivial = n_calls >= 2 and hits_below_opt
+    nontrivial = n_calls >= 2 and (hits_below_opt or cls == "MinErrorFlow")
     if hits_below_opt:
         labels.add("fault_below_optimum")
     return ok(labels, nontrivial, dict(facts, fault_runs=fault_runs))
